@@ -202,8 +202,9 @@ type sched struct {
 	trace        []string
 	seq          int64 // global event sequence number (store histories)
 	limit        int
-	progress     int64 // scheduling steps taken (read by run's watchdog goroutine)
-	foreignCalls int   // hook calls made by goroutines the code under test started itself
+	misuse       string // the first fatal misuse of a lock (unlocking what is not locked), "" if none
+	progress     int64  // scheduling steps taken (read by run's watchdog goroutine)
+	foreignCalls int    // hook calls made by goroutines the code under test started itself
 }
 
 //go:norace
@@ -284,6 +285,31 @@ func (hookDispatch) Release(m *simsync.RWMutex, write bool) {
 }
 
 //go:norace
+func (hookDispatch) TryAcquire(m *simsync.RWMutex, write bool) bool {
+	if s := activeSched; s != nil && !s.foreign() {
+		return s.TryAcquire(m, write)
+	}
+	return true // the real primitive underneath decides
+}
+
+//go:norace
+func (hookDispatch) Unheld(m *simsync.RWMutex, write bool) bool {
+	s := activeSched
+	if s == nil || s.cur == nil || s.foreign() {
+		return false
+	}
+	if (write && m.Writer) || (!write && m.Readers > 0) {
+		return false
+	}
+	what := "sync: RUnlock of unlocked RWMutex"
+	if write {
+		what = "sync: Unlock of unlocked RWMutex"
+	}
+	s.Misuse(m, what)
+	return true
+}
+
+//go:norace
 func (hookDispatch) Yield(label string) {
 	if s := activeSched; s != nil {
 		s.yield(label)
@@ -330,6 +356,64 @@ func (s *sched) Acquire(m *simsync.RWMutex, write bool) {
 		m.Readers++
 	}
 	t.held = append(t.held, heldLock{m, write, site})
+}
+
+// TryAcquire: the non-blocking forms. A decision point, then the model's answer at that moment.
+//
+//go:norace
+func (s *sched) TryAcquire(m *simsync.RWMutex, write bool) bool {
+	t := s.cur
+	if t == nil {
+		if !grantableNow(m, write) {
+			return false
+		}
+		if write {
+			m.Writer = true
+		} else {
+			m.Readers++
+		}
+		return true
+	}
+	site := callSite()
+	kind := "R"
+	if write {
+		kind = "W"
+	}
+	s.trace = append(s.trace, fmt.Sprintf("%s:try-%s(%s)", t.name, kind, site))
+	s.park(t)
+	if !grantableNow(m, write) {
+		s.trace = append(s.trace, t.name+":try-failed")
+		return false
+	}
+	if write {
+		m.Writer = true
+	} else {
+		m.Readers++
+	}
+	t.held = append(t.held, heldLock{m, write, site})
+	return true
+}
+
+// grantableNow is sync.RWMutex's own rule for the Try forms: a reader fails while a writer holds or waits.
+//
+//go:norace
+func grantableNow(m *simsync.RWMutex, write bool) bool {
+	if write {
+		return m.Readers == 0 && !m.Writer
+	}
+	return !m.Writer && m.Pending == 0
+}
+
+//go:norace
+func (s *sched) Misuse(m *simsync.RWMutex, what string) {
+	name := "setup"
+	if s.cur != nil {
+		name = s.cur.name
+	}
+	if s.misuse == "" {
+		s.misuse = fmt.Sprintf("%s in %s (%s)", what, callSite(), taskKind(name))
+	}
+	s.trace = append(s.trace, name+":"+what)
 }
 
 //go:norace
@@ -768,6 +852,11 @@ func execSched(t *testing.T, p *Plan) *Result {
 		res.violate(len(s.picks), "no-progress", "C20/no-progress", "every request completes within the step bound", "step limit reached", "")
 		return res
 	}
+	if s.misuse != "" {
+		res.logf("MISUSE %s", s.misuse)
+		res.violate(len(s.picks), "lock-misuse", "C20/lock-misuse/"+strings.ReplaceAll(strings.SplitN(s.misuse, " in ", 2)[0], " ", "-"), "every request completes", "fatal error: "+s.misuse, "the runtime ends the process on this: every request in flight is lost")
+		return res
+	}
 	for _, tk := range s.tasks {
 		if pv := tk.getPanicked(); pv != nil {
 			res.logf("%s PANIC", tk.name)
@@ -800,9 +889,24 @@ func taskKind(name string) string {
 
 // ---------------------------------------------------------------- server mode
 
+// c20Salt makes the names a provider asks for differ from run to run (anything the code under test remembers about names across
+// requests is then written anew in every run, not only in a process's first)
+var c20Salt uint64
+
 func spMetadataXML(base string) []byte {
 	spv := newSP(base, rsaKeys[1], "", idpMetadataFor("https://idp.example.com/metadata", "https://idp.example.com/sso", "", []KeyPair{rsaKeys[0]}, nil, "signing"))
-	b, err := xml.Marshal(spv.Metadata())
+	md := spv.Metadata()
+	// the provider asks for attributes by name (basic / unspecified name formats), as many deployments do
+	md.SPSSODescriptors[0].AttributeConsumingServices = []saml.AttributeConsumingService{{Index: 1, ServiceNames: []saml.LocalizedName{{Lang: "en", Value: "app"}},
+		RequestedAttributes: []saml.RequestedAttribute{
+			{Attribute: saml.Attribute{Name: "email", NameFormat: "urn:oasis:names:tc:SAML:2.0:attrname-format:basic"}},
+			{Attribute: saml.Attribute{Name: "uid", FriendlyName: "User", NameFormat: "urn:oasis:names:tc:SAML:2.0:attrname-format:basic"}},
+			{Attribute: saml.Attribute{Name: "e-mail.address", NameFormat: "urn:oasis:names:tc:SAML:2.0:attrname-format:unspecified"}},
+			{Attribute: saml.Attribute{Name: "given_name", NameFormat: "urn:oasis:names:tc:SAML:2.0:attrname-format:basic"}},
+			{Attribute: saml.Attribute{Name: fmt.Sprintf("e-mail.%d", c20Salt), NameFormat: "urn:oasis:names:tc:SAML:2.0:attrname-format:basic"}},
+			{Attribute: saml.Attribute{Name: fmt.Sprintf("u.i.d %d", c20Salt), NameFormat: "urn:oasis:names:tc:SAML:2.0:attrname-format:unspecified"}},
+		}}}
+	b, err := xml.Marshal(md)
 	if err != nil {
 		panic(err)
 	}
@@ -817,6 +921,7 @@ func setupServerMode(p *Plan, s *sched, res *Result) func() {
 	if err != nil {
 		panic(err)
 	}
+	c20Salt = p.Run
 	md1 := spMetadataXML("https://sp1.example.com")
 	md2 := spMetadataXML("https://sp2.example.com")
 	if r := deliver(srv, "PUT", "https://idp.example.com/services/sp1", string(md1), "", nil); r.Code != 204 {
